@@ -3,8 +3,8 @@
 (* Only the modifying calls are transitions (SpecM); the queries are       *)
 (* checked in every reached state by QueryInv.                             *)
 EXTENDS NodeTree
-KindsQ == {<<"a", FALSE>>, <<"b", TRUE>>}
-KindsT == {<<"a", FALSE>>, <<"a", TRUE>>, <<"b", TRUE>>, <<"", FALSE>>}
+KindsQ == {<<"a", 0>>, <<"b", 7>>}
+KindsT == {<<"a", 0>>, <<"a", 5>>, <<"b", 7>>, <<"", 0>>}
 PosQ3  == -2..3
 PosT   == -3..4
 KeysQ  == {"a", "b", "c"}
